@@ -374,6 +374,13 @@ def conformance_stage(kind, variant, params):
             v['variant'] = variant
             v['source'] = kind
             v['par'] = bool(params.get('par', 1) > 1) if isinstance(params, dict) else False
+        # the context flags of a run are sticky: a violation that was flagged a few events before the flag was raised
+        # in the same run belongs to the same context
+        for fl in ('faulted', 'resur', 'big', 'wup'):
+            runs_with = {v['run'] for v in viols if v.get(fl)}
+            for v in viols:
+                if v['run'] in runs_with:
+                    v[fl] = True
         res['violations'] = viols
         # keep a small sample of the trace as evidence, drop the bulk
         with open(trace) as fh:
